@@ -178,14 +178,14 @@ Definition mux_handler (m : muxcfg) (jp : bytes -> option bytes) (fuel : nat) : 
 (* ---- cases ---- *)
 
 Definition case_ok7 (b : bytes) : bool :=
-  match parse_case b with
-  | Some c =>
+  match parse_case_p b with
+  | Some (c, tb, divs) =>
       match k_mode c with
-      | 0 => outcome_ok c (serve_all (k_cfg c) (prog_handlers (k_progs c)) (k_script c))
+      | 0 => outcome_ok_p c divs (serve_all_p (k_cfg c) env_id (prog_handlers (k_progs c)) tb (k_script c))
       | _ =>
           let m := mkmux (c_ns (k_cfg c)) (k_mux_fixed c) (k_mux_regs c) in
-          outcome_ok c (serve_all (k_cfg c)
-                          (fun _ => mux_handler m (c_jp (k_cfg c)) (S (length (k_script c))))
+          outcome_ok_p c divs (serve_all_p (k_cfg c) env_id
+                          (fun _ => mux_handler m (c_jp (k_cfg c)) (S (length (k_script c)))) tb
                           (k_script c))
       end
   | None => false
